@@ -231,7 +231,8 @@ impl<M: ConvexCellMarker> Iterator for ConvexCellDecomposition<'_, M> {
     }
 }
 
-pub(crate) trait ConvexCellMarker: Clone + Send + Sync + Default {}
+/// Marker trait for the two states of a [`ConvexCell`] ([`WithFaces`], [`WithoutFaces`]).
+pub trait ConvexCellMarker: Clone + Send + Sync + Default {}
 
 #[derive(Copy, Clone, Default)]
 pub struct WithoutFaces;
